@@ -54,7 +54,7 @@ def checkC05 (trace : List (Rec × List Rec)) : Option String := Id.run do
       if !hooks && ndis != min n ncand then
         return some s!"dispel (random): {ndis} instance(s) dispelled, documented min(requested {n}, dispellable {ncand})"
     let (d', mobs, _) := ModAdapter.stepRec d0 op
-    if op.name != "cat" && op.name != "mutsnap" && op.name != "instprop" then
+    if op.name != "cat" && op.name != "mutsnap" && op.name != "instprop" && op.name != "instset" && op.name != "instweak" && op.name != "instdres" then
       let m := (mobs.filter relevant05).map listKey
       let o := (obs.filter relevant05).map listKey
       if m.length != o.length then
